@@ -25,6 +25,7 @@ def path_cost(cost, beta, seq, T, K):
 class C01(Check):
     pid = 'C01'
     validate = True
+    fork_logging = True       # DEBUG logging on/off is a symbolic input of every path
     anchors = [('src/fast_ticc/cluster_label_assignment.py', 'assign_point_cluster_labels'),
                ('src/fast_ticc/cluster_label_assignment.py', 'predict_cluster_labels')]
     obligations = ['labels_valid', 'reported_cost_is_cost_of_returned_path', 'optimal_vs_any_rival',
